@@ -21,6 +21,7 @@ Unres(e) == "unresolved" \in DOMAIN e.op
 MAXWIRE == 1280
 
 LK0 == [aged |-> 0,       \* virtual time passed (op "age"), ms
+        tick |-> 0,       \* steps so far (to tell which lookups overlapped)
         calls |-> <<>>,   \* lookups started: [call, k, pred, t0, mixed (another lookup was open at the same time), n (callbacks so far), init (the candidates it starts from: the k table entries closest to the target)]
         lreqs |-> <<>>,   \* FINDNODE requests sent while a lookup was open: [rid, to, at, c (index of the only open lookup, 0 if ambiguous)]
         nodesok |-> {},   \* requests that got a complete NODES answer
@@ -103,7 +104,7 @@ MonStep(mm, e) ==
       calls1 == IF op.o = "lookup" /\ "call" \in DOMAIN op
                 THEN [i \in 1..Len(lk.calls) |-> IF i \in openBefore THEN [lk.calls[i] EXCEPT !.mixed = TRUE] ELSE lk.calls[i]]
                      \o <<[call |-> op.call, k |-> Get(op, "k", 16), pred |-> Get(op, "pred", FALSE) # FALSE, t0 |-> aged1, mixed |-> openBefore # {}, n |-> 0,
-                           init |-> SeqSet(Get(op, "closest", <<>>))]>>
+                           init |-> SeqSet(Get(op, "closest", <<>>)), s |-> lk.tick + 1, e |-> 0, r0 |-> Len(lk.lreqs), short |-> FALSE]>>
                 ELSE lk.calls
       open1 == {i \in 1..Len(calls1) : calls1[i].n = 0}
       owner == IF Cardinality(open1) = 1 THEN (CHOOSE i \in open1 : TRUE) ELSE 0
@@ -115,8 +116,13 @@ MonStep(mm, e) ==
                  THEN Append(lk.learnt, [rid |-> op.req, ids |-> UNION {{RecOwner(pks[k].recs[i].n) : i \in 1..Len(pks[k].recs)} : k \in 1..Len(pks)}])
                  ELSE lk.learnt
       dn == obs.done
-      calls2 == [i \in 1..Len(calls1) |-> [calls1[i] EXCEPT !.n = @ + Cardinality({j \in 1..Len(dn) : dn[j].call = calls1[i].call})]]
-      lk1 == [aged |-> aged1, calls |-> calls2, lreqs |-> lreqs1, nodesok |-> nodesok1, learnt |-> learnt1]
+      calls2 == [i \in 1..Len(calls1) |->
+                   LET D == {j \in 1..Len(dn) : dn[j].call = calls1[i].call} IN
+                   IF D = {} THEN calls1[i]
+                   ELSE [calls1[i] EXCEPT !.n = @ + Cardinality(D), !.e = IF @ = 0 THEN lk.tick + 1 ELSE @,
+                                          \* finished by itself (not cut off by the query time-out) with fewer than k results
+                                          !.short = \E j \in D : dn[j].ok /\ Len(dn[j].res) < calls1[i].k /\ aged1 - calls1[i].t0 < mm.cfg.qto]]
+      lk1 == [aged |-> aged1, tick |-> lk.tick + 1, calls |-> calls2, lreqs |-> lreqs1, nodesok |-> nodesok1, learnt |-> learnt1]
   IN [mm EXCEPT !.running = @ /\ op.o # "shutdown", !.xs = xs2, !.votes = votes1, !.lk = lk1,
                 !.answered = IF op.o \in {"response_in", "fail", "honest_reply"} /\ ~Unres(e) /\ ~(op.o = "response_in" /\ op.body.t = "nodes" /\ op.body.total > 1) THEN @ \cup {op.req} ELSE @,
                 !.offered = IF op.o \in {"established", "add_enr"} THEN @ \cup {op.id} ELSE @,
@@ -258,6 +264,17 @@ LkViol(mm, m2, e) ==
                  \cup (IF c.pred /\ \E y \in 1..Len(d.res) : ~HasV4(d.res[y]) THEN {"C10.PredicateMismatch"} ELSE {})
                  \cup (IF ~c.mixed /\ \E y \in 1..Len(owners) : owners[y] \notin answeredBy THEN {"C10.NotAnswered"} ELSE {})
                  \cup (IF ~c.mixed /\ Len(d.res) < c.k /\ k2.aged - c.t0 < mm.cfg.qto /\ \E p \in learnt : p \notin contacted THEN {"C10.Incomplete"} ELSE {})
+                 \* lookups that overlapped in time: requests cannot be attributed, but each lookup that finished by itself with fewer than k
+                 \* results has sent its own request to each of its initial candidates - so a candidate shared by n such lookups was sent
+                 \* at least n requests since the first of them started
+                 \cup (IF c.mixed /\ c.short THEN
+                         LET cluster == {j \in 1..Len(k2.calls) : k2.calls[j].s <= k2.tick /\ (k2.calls[j].e = 0 \/ k2.calls[j].e >= c.s)}
+                             fin == {j \in cluster : k2.calls[j].short}
+                             from == LET F == {k2.calls[j].r0 : j \in cluster} IN CHOOSE f0 \in F : \A f1 \in F : f0 <= f1
+                         IN IF \E p \in UNION {k2.calls[j].init : j \in fin} :
+                                 Cardinality({z \in (from + 1)..Len(k2.lreqs) : k2.lreqs[z].to = p}) < Cardinality({j \in fin : p \in k2.calls[j].init})
+                            THEN {"C10.Incomplete"} ELSE {}
+                       ELSE {})
              : x \in 1..Len(dn)}
 
 \* ------------------------------------------------------------------ strict: the service's lookup is the query of Query.tla driven by Lookup.tla
